@@ -103,11 +103,11 @@ const (
 	OFpAbs
 	OFpLt
 	OFpLe
-	OFpEq     // IEEE equality
-	OFpIsNaN  //
-	OFpIsInf  //
-	OFpToSBV  // RTZ, to Sort.W
-	OFpToUBV  // RTZ
+	OFpEq      // IEEE equality
+	OFpIsNaN   //
+	OFpIsInf   //
+	OFpToSBV   // RTZ, to Sort.W
+	OFpToUBV   // RTZ
 	OFpFromSBV // RNE, Args[0] BV
 	OFpFromUBV
 	OFpFromBits // reinterpret BV64
@@ -122,16 +122,16 @@ const (
 )
 
 type Term struct {
-	Op   Op
-	Sort Sort
-	Args []*Term
-	Val  uint64   // BV const (W<=64) / Bool const (0/1) / FP const bits
-	Big  *big.Int // Int const or BV const wider than 64
-	Name string
-	P1   int
-	P2   int
-	Tab  []uint64
-	id   uint64
+	Op       Op
+	Sort     Sort
+	Args     []*Term
+	Val      uint64   // BV const (W<=64) / Bool const (0/1) / FP const bits
+	Big      *big.Int // Int const or BV const wider than 64
+	Name     string
+	P1       int
+	P2       int
+	Tab      []uint64
+	id       uint64
 	lin      *LinVec
 	LinAtoms []Atom
 	um       uint64
@@ -256,7 +256,6 @@ func same(a, b *Term) bool {
 
 // Same reports syntactic identity (pointer or equal constants).
 func Same(a, b *Term) bool { return same(a, b) }
-
 
 // boolTable recognises (= Table_bv1(idx) #b1).
 func boolTable(t *Term) (idx *Term, tab []uint64, ok bool) {
@@ -584,6 +583,15 @@ func Eq(a, b *Term) *Term {
 		}
 		if a.Op == OZext && b.Op == OZext && a.Args[0].Sort == b.Args[0].Sort {
 			return Eq(a.Args[0], b.Args[0])
+		}
+		if a.Op == OTable && b.Op == OTable && a.Args[0] == b.Args[0] && len(a.Tab) == len(b.Tab) {
+			nt := make([]uint64, len(a.Tab))
+			for i := range nt {
+				if a.Tab[i] == b.Tab[i] {
+					nt[i] = 1
+				}
+			}
+			return mkBoolTable(a.Args[0], nt)
 		}
 		if a.Op == OTable && b.Op == OTable && a.Args[0].Sort == b.Args[0].Sort && len(a.Tab) == len(b.Tab) {
 			sameTab, inj := true, true
@@ -998,7 +1006,6 @@ func cmpEval(op Op, w int, x, y uint64) bool {
 	}
 	panic("cmp")
 }
-
 
 // Ones returns a mask of the bits of a BV term (width <= 64) that may be 1.
 func Ones(t *Term) uint64 {
